@@ -2,7 +2,7 @@
    compositions (signal over background, product, source weighting), the
    end-to-end chain and the multi-dataset sum — real-number reading. *)
 From Coq Require Import Reals ZArith List Bool Lra Lia Arith Permutation.
-From Sky Require Import Num NumR G_llh M_Llh M_LlhPipe S_Llh S_LlhPipe P_Llh P_LlhValue.
+From Sky Require Import Num NumR G_llh M_Llh M_LlhPipe S_Llh S_LlhPipe P_LlhK P_LlhValue.
 Import ListNotations.
 Open Scope R_scope.
 
@@ -87,7 +87,7 @@ Section C.
   Proof.
     intros HL Hi. unfold prod_values.
     rewrite (nth_map_lt' _ _ i (0, 0) 0) by (rewrite combine_length; lia).
-    rewrite combine_nth by exact HL. cbn [fst snd]. apply K_prod_ratio.
+    rewrite combine_nth by exact HL. cbn [fst snd]. apply prod_ratio_spec.
   Qed.
 
   Definition wf_factor (evt_idxs : list nat) (n_sel : nat) (f : rfactor) : Prop :=
@@ -224,7 +224,7 @@ Section C.
     cbn [nzero RNum].
     destruct (last_for e (map (fun v => (snd (fst v), snd v))
                               (filter (fun v => Nat.eqb (fst (fst v)) k) vals))) as [r|].
-    - rewrite K_sw_term. rewrite <- HL. reflexivity.
+    - rewrite KV_sw_term. rewrite <- HL. reflexivity.
     - rewrite <- HL. lra.
   Qed.
 
@@ -261,7 +261,7 @@ Section C.
       rewrite (nth_map_lt' _ R1 e 0 0) by (rewrite HL; exact He).
       rewrite (nth_map_lt' _ _ e 0%nat 0) by (rewrite seq_length; exact He).
       rewrite seq_nth by exact He. cbn [plus].
-      rewrite K_sw_norm, nsum_R. unfold stacked_spec. f_equal.
+      rewrite KV_sw_norm, nsum_R. unfold stacked_spec. f_equal.
       unfold R1. rewrite sw_fold_at by (try exact Hnd; rewrite repeat_length; exact He).
       rewrite nth_repeat. cbn [nzero RNum]. lra.
   Qed.
@@ -328,6 +328,6 @@ Section C.
   Proof.
     unfold multi_value, multi_manual. rewrite nsum_R. f_equal.
     apply map_ext. intros [fj [Nj Rj]]. cbn [fst snd].
-    rewrite value_is_manual, K_nsf. reflexivity.
+    rewrite value_is_manual, KV_nsf. reflexivity.
   Qed.
 End C.
